@@ -3,7 +3,7 @@
 From Coq Require Import String.
 From Coq Require Import List Ascii ZArith Bool Lia.
 From CGV Require Import Base.PyBase Base.PyVal Base.NxGraph Resolve.Bonding Resolve.GraphOps Resolve.Pipeline
-     Resolve.MapDefs Resolve.Witness.
+     Resolve.MapDefs Resolve.Witness Resolve.MapProofs.
 Import ListNotations.
 Open Scope Z_scope.
 
@@ -17,4 +17,57 @@ Proof. split; [reflexivity|]. eexists. split; [vm_compute; reflexivity|discrimin
 Example C02_holds_AB : virtual_not_last fd_AB base_ABV = false /\ c02_of base_ABV = Ok 0%nat /\ c02_of base_AB = Ok 0%nat.
 Proof. repeat split; vm_compute; reflexivity. Qed.
 
+(** ---- annotate_fragments: the coarse 'graph' attributes, for every coarse graph and fine graph *)
+(** frag_exact: coarse node k carries exactly the fine nodes whose fragid lists k *)
+Theorem C02_frag_exact : forall meta mol fgs, annotate_fragments meta mol = Ok fgs ->
+  forall k g, In (k, g) fgs -> forall n, In n (node_keys g) <-> records mol n k.
+Proof. exact frag_exact. Qed.
+(** every coarse node gets a graph, in coarse order *)
+Theorem C02_frag_keys : forall meta mol fgs, annotate_fragments meta mol = Ok fgs -> map fst fgs = node_keys meta.
+Proof. exact frag_keys. Qed.
+(** frag_cover: a fine node whose fragid names a coarse key is in that coarse node's graph *)
+Theorem C02_frag_cover : forall meta mol fgs, annotate_fragments meta mol = Ok fgs ->
+  forall n k, records mol n k -> In k (node_keys meta) -> exists g, In (k, g) fgs /\ In n (node_keys g).
+Proof. exact frag_cover. Qed.
+
+(** ---- merge_graphs: instantiated nodes *)
+(** one membership per instantiated node: [template fragid + running offset] - a COUNTER, not the coarse
+    key: this is why C02 needs "no virtual node precedes a real node" (C02_refuted) *)
+Theorem C02_fragid_singleton : forall off1 fo a a', merge_node off1 fo a = Ok a' ->
+  exists f, aget (S "fragid") a' = Some (VList [VInt (f + fo)]) /\
+            match aget (S "fragid") a with Some v => as_int v = Ok f | None => f = 0 end.
+Proof. exact merge_fragid_singleton. Qed.
+(** frag_copy, attributes: everything but fragid / ez_isomer_atoms is the template's *)
+Theorem C02_frag_copy_attrs : forall off1 fo a a' key, merge_node off1 fo a = Ok a' ->
+  key <> S "fragid" -> key <> S "ez_isomer_atoms" -> aget key a' = aget key a.
+Proof. exact frag_copy_attrs. Qed.
+(** frag_copy, the explicit bijection: consecutive fresh keys, injective *)
+Theorem C02_correspondence_fresh : forall off tgt t x, In (t, x) (correspondence off tgt) -> off < x <= off + Z.of_nat (length tgt).
+Proof. exact correspondence_fresh. Qed.
+Theorem C02_correspondence_injective : forall off tgt, NoDup (map snd (correspondence off tgt)).
+Proof. exact correspondence_injective. Qed.
+(** frag_copy on the graph (partial: freshness/distinctness of the handed-out keys are hypotheses, see MapProofs) *)
+Theorem C02_frag_copy_partial : forall src tgt g corr, merge_graphs src tgt = Ok (g, corr) ->
+  NoDup (map (fun n => map_get corr (nk n)) tgt) ->
+  (forall n, In n tgt -> has_node src (map_get corr (nk n)) = false) ->
+  (forall u v d, In (u, v, d) (edges_data tgt) -> In u (node_keys tgt) /\ In v (node_keys tgt)) ->
+  exists off fo, merge_offsets src = Ok (off, fo) /\ corr = correspondence off tgt /\
+    forall n, In n tgt -> exists a', merge_node (off + 1) fo (na n) = Ok a' /\ node_attrs g (map_get corr (nk n)) = Ok a'.
+Proof. exact frag_copy_partial. Qed.
+(** non-vacuity of the hypotheses of C02_frag_copy_partial: instantiating #B after #A *)
+Example C02_frag_copy_nonvacuous :
+  exists g1 c1 g2 c2 tA tB, fd_get (S "A") fd_AB = Some tA /\ fd_get (S "B") fd_AB = Some tB /\
+    merge_graphs gempty tA = Ok (g1, c1) /\ merge_graphs g1 tB = Ok (g2, c2) /\
+    NoDup (map (fun n => map_get c2 (nk n)) tB) /\ forallb (fun n => negb (has_node g1 (map_get c2 (nk n)))) tB = true.
+Proof.
+  do 6 eexists. split; [reflexivity|]. split; [reflexivity|]. split; [vm_compute; reflexivity|]. split; [vm_compute; reflexivity|].
+  split; [repeat constructor; cbn; tauto|reflexivity].
+Qed.
+
 Print Assumptions C02_refuted.
+Print Assumptions C02_frag_exact.
+Print Assumptions C02_frag_cover.
+Print Assumptions C02_fragid_singleton.
+Print Assumptions C02_frag_copy_attrs.
+Print Assumptions C02_correspondence_injective.
+Print Assumptions C02_frag_copy_partial.
